@@ -15,6 +15,8 @@ CONSTANTS
   Vers = {0}
   FixH4 = TRUE
   SysZeroWrites = FALSE
+  SplitReads = FALSE
+  AtomicLegacyReads = TRUE
 INIT Init
 NEXT Next
 VIEW shview
